@@ -504,7 +504,7 @@ func c11CheckMinusIndices(a []any, b any) string {
 	return ""
 }
 
-var c11KeySet = []string{"", "a", "A", "ab", "a\x00", "b", "é", "z", "日", "😀", "＀"}
+var c11KeySet = []string{"", "a", "A", "ab", "a\x00", "b", "é", "z", "日", "😀", "＀", " ", "a b", "a!", "a\"", "aB", "a\\", "a\n", "a\x7f"}
 
 func c11CheckKeys(keys []string) string {
 	m := map[string]any{}
@@ -985,7 +985,7 @@ func init() {
 		Level: "exploration",
 		Rule: "exhaustive: all ordered pairs and triples of the ordering universe (every type/nesting neighbour, each number in every Go representation, floats restricted to |f|<2^53 as stated); " +
 			"all arrays of length<=3 over a sub-universe and all 720 permutations of six 6-element multisets through 9 consumers x 7 key functions; every sorted array x every target for bsearch; " +
-			"array pairs for subtraction/indices incl. operands of 15..130 elements; all objects with <=4 keys of an 11-key set. A case is one (pair | triple | array | array,target | key set); all are distinct by construction and non-trivial (each evaluates the real Compare/VM).",
+			"array pairs for subtraction/indices incl. operands of 15..130 elements; all objects with <=4 keys of a 19-key set (prefixes, keys that need escaping, keys around the quote and backslash). A case is one (pair | triple | array | array,target | key set); all are distinct by construction and non-trivial (each evaluates the real Compare/VM).",
 		Assume:         []string{"reference order refCompare transcribed from the jq manual", "key functions of *_by are evaluated by gojq itself (their correctness is C01/C03's business)", "values outside the universes are not covered"},
 		Run:            c11Run,
 		Replay:         c11Replay,
